@@ -2,7 +2,7 @@ META = {
     'level': 'exploration',
     'engine': 'E2+E3',
     'technique': 'session snapshot equality across failing calls + cache-vs-model walker + commit observer',
-    'level_text': 'Session snapshot (object status, loaded values, collections with pending added/removed, key indexes, pending writes) taken before every modification call and compared after every call that raises, plus a cache-vs-model walker; later commits are compared with a reference that ignored the failed call. Held on the generated histories only: fixed templates covering every relationship kind alternate with random 2-4 entity diagrams; violating histories are shrunk by re-running the real code.',
+    'level_text': 'Two workloads: random long histories and a small-scope exhaustive mode (all operation sequences up to length 3 / 4 over a focused alphabet per relationship and per key, each in a fresh session on a committed population). Session snapshot (object status, loaded values, collections with pending added/removed, key indexes, pending writes) taken before every modification call and compared after every call that raises, plus a cache-vs-model walker; later commits are compared with a reference that ignored the failed call. Held on the generated histories only: fixed templates covering every relationship kind alternate with random 2-4 entity diagrams; violating histories are shrunk by re-running the real code.',
     'level_note': 'Trusted: the reference model in vlib/hmodel.py (documented assignment / collection / cascade semantics, conflict timing free), SQLite as the only backend, single-threaded sessions. Loud unexpected errors are counted, not judged. One-to-one self links are out of scope.',
     'rule': 'one case = one generated history (diagram + operation list, up to N operations over several sessions); distinct = distinct (diagram, operation list); non-trivial = at least two applied modifications and at least one event judged by the deciding monitor',
     'assumptions': ['SQLite only', 'reference model semantics as documented in DESIGN.md 2.2', 'histories are single-threaded'],
@@ -22,9 +22,18 @@ CFG = {
 }
 
 
+SMALL = {
+    'templates': ['m2m', 'composite', 'mixed_cascade', 'o2m_req_nocascade', 'o2o_req'],
+    'length': {'quick': 3, 'thorough': 4},
+    'budget': {'quick': 12000, 'thorough': 400000},
+    'monitors': CFG['monitors'],
+}
+
+
 def run(ctx):
-    from vlib import hcheck
+    from vlib import hcheck, hsmall
     hcheck.run_histories(ctx, CFG)
+    hsmall.run_small_scope(ctx, dict(SMALL, stop_on_taint=CFG.get('stop_on_taint', True)))
     ctx.floor('atomic.failed_calls_judged', 300)
 
 
